@@ -9,7 +9,29 @@ from gen_programs import Gen, Scope
 
 PID = "C02"
 MANIFEST = {
-    "text": "47 Coq theorems.  LET2 round: WEAKENING IS PROVED (C02_weakening, _impl, _generic; proofs/C02Weak.v): a binding "
+    "text": "72 Coq theorems.  C02ALL round: C02's theorems now speak about the evaluator the ALL / TEXT-EVAL streams run "
+            "(EvalAll.binop_all o / builtin_all o: EVERY row of the regenerated built-in table and `^`, library behaviour as "
+            "fields of the oracle record o), for EVERY oracle o: ops_wf / ops_nm / old-cells-untouched with NO hypothesis on o "
+            "(the 17 new arms are pure and return a number, string or null; `^` is eval_binop with the oracle's powf), "
+            "ops_commute under exactly one: lam_str_blind o — the function-text oracle, the only oracle field applied to "
+            "VALUES (the captured scope), is blind to cell indices; it holds of every lookup-table oracle of AllRun.v "
+            "(C02_lam_str_blind_tables) and is necessary (C02_ops_commute_all_needs_blind_refuted: an oracle that prints a "
+            "captured cell index).  Instantiated: C02_store_extension_invariance_all, C02_eval_twice_exact_all / _all / "
+            "_equals_all / _after_any_program_all, C02_old_cells_untouched_all, C02_cfg_wf_preserved_all / "
+            "_after_any_program_all, C02_weakening_all, C02_let_abstraction_seq_partial_all / _seq_multi_partial_all, "
+            "C02_let_program_all / _multi_all / _multi_after_any_prefix_all.  The clock: time_now() is the constant field o_now (one oracle record = one "
+            "clock reading), so the model forces no exclusion on eval-twice beyond 'both evaluations under the same oracle "
+            "record'; with the clock advancing between the evaluations the statement is kept as the Prop "
+            "C02_eval_twice_across_clock_full and REFUTED by `time_now()` (C02_eval_twice_across_clock_refuted) — the "
+            "documented behaviour of a clock, not a defect.  POSITIVELY (proofs/C02AllClock.v): o_now is read by the arm of "
+            "time_now and by nothing else (C02_clock_read_by_one_arm); an Unmodelled outcome of an operator / built-in is "
+            "never swallowed by the evaluator (C02_unmodelled_never_swallowed: DepthMono.v's development with Unmodelled "
+            "for the depth error, generalised to two pairs of dispatchers); hence an evaluation that, with the time_now arm "
+            "poisoned, does not end in Unmodelled — i.e. never calls time_now — is the same under every clock reading "
+            "(C02_eval_same_under_every_clock), and eval-twice holds with the clock advancing between the two evaluations "
+            "when the second does not read it (C02_eval_twice_across_clock_noclock); and AllExtends.v's conservative extension "
+            "lifts from the dispatchers to the evaluator (C02_eval_all_extends_full: where eval_full does not end in "
+            "Unmodelled, eval_all o computes the same outcome, store and scope chain, every oracle).  LET2 round: WEAKENING IS PROVED (C02_weakening, _impl, _generic; proofs/C02Weak.v): a binding "
             "of a name x that nothing mentions changes nothing — from scope chains that agree on every name other than x and "
             "the same store, an expression in which x does not occur (nocc: not as identifier, {x} key, assignment target or "
             "parameter) evaluates to the same outcome and store, the chains stay in agreement, and no value mentioning x "
